@@ -1751,3 +1751,15 @@ theorem pinv_run {s s' : St} {evs : List Ev} (hi : PInv s) (hk : ∀ e ∈ evs, 
     · cases h
 
 end Compio.Produced
+
+namespace Compio.MultiWait
+
+theorem filter_map_key (fds : List Nat) (key : Nat) :
+    (fds.map (·, key)).filter (fun e => !mine key fds e) = [] := by
+  rw [List.filter_eq_nil_iff]
+  intro e he
+  simp only [List.mem_map] at he
+  obtain ⟨fd, hfd, rfl⟩ := he
+  simp [mine, hfd]
+
+end Compio.MultiWait
